@@ -36,6 +36,8 @@ type World struct {
 	readerMemo map[*ssa.Function]bool
 	declaredPure map[string]bool
 	pmu      sync.Mutex
+	readOnlyExt func(string) bool
+	implMemo map[string][]*ssa.Function
 }
 
 func loadWorld(repo string) (*World, error) {
@@ -64,7 +66,7 @@ func loadWorld(repo string) (*World, error) {
 	prog, _ := ssautil.AllPackages(pkgs, ssa.GlobalDebug)
 	prog.Build()
 	w := &World{repo: repo, prog: prog, pkgs: pkgs, mine: map[*types.Package]bool{}, byName: map[string]*ssa.Function{},
-		files: map[string]*ast.File{}, pkgOfFn: map[*ssa.Function]*packages.Package{}, srcCache: map[string][]byte{}, recursive: map[*ssa.Function]bool{}, pureMemo: map[string]bool{}, readerMemo: map[*ssa.Function]bool{}, declaredPure: map[string]bool{}}
+		files: map[string]*ast.File{}, pkgOfFn: map[*ssa.Function]*packages.Package{}, srcCache: map[string][]byte{}, recursive: map[*ssa.Function]bool{}, pureMemo: map[string]bool{}, readerMemo: map[*ssa.Function]bool{}, declaredPure: map[string]bool{}, implMemo: map[string][]*ssa.Function{}}
 	pkgByTypes := map[*types.Package]*packages.Package{}
 	for _, p := range pkgs {
 		if strings.Contains(p.PkgPath, "/tools") {
